@@ -119,7 +119,9 @@ def main(argv):
   try:
     import resource
     gb = float(params.get('rlimit_as_gb', 6))
-    resource.setrlimit(resource.RLIMIT_AS, (int(gb * (1 << 30)), int(gb * (1 << 30))))
+    # AddressSanitizer reserves terabytes of shadow address space: no address-space limit under the sanitizer build
+    if gb > 0 and 'asan' not in os.environ.get('LD_PRELOAD', ''):
+      resource.setrlimit(resource.RLIMIT_AS, (int(gb * (1 << 30)), int(gb * (1 << 30))))
   except Exception:
     pass
   mod = importlib.import_module('vf.checks.' + prop.lower())
